@@ -65,7 +65,8 @@ MkCheck(P, T, e) ==
       p   == e.p
       ids == NewIds(P, T)
   IN
-  IF Has(e, "exc") THEN "mk.raises"
+  IF Has(e, "hang") THEN "mk.hangs"                                  \* C01: the call did not return (watchdog), the split is incomplete
+  ELSE IF Has(e, "exc") THEN "mk.raises"
   ELSE IF ~(p \in Cells(T)) THEN "mk.unknown-parent"
   ELSE IF ~IsLeaf(T, p) THEN "mk.guard-leaf"                       \* C03/C06: only leaves are split
   ELSE IF e.anom # <<>> THEN "mk.anomaly"
